@@ -7,7 +7,7 @@ import Mpir.Model.KernelsMem
 namespace Mpir.Ops.KernelsMem
 open Mpir Mpir.Mem
 
-private def dump (len : Nat) (m : Memory) : Tok := .vec ((List.range len).map m)
+private def dump (len : Nat) (m : Memory) : Tok := .vec ((List.range len).map m.get)
 private def withRet (len : Nat) (p : Memory × Nat) : Option (List Tok) := some [dump len p.1, natTok p.2]
 private def inBuf (len off n : Nat) : Bool := off + n ≤ len
 private def limb (v : Int) : Bool := 0 ≤ v ∧ v < (B : Int)
